@@ -268,7 +268,7 @@ class SymArray(_np.ndarray):
             n = len(xs)
             m = ssum(xs) / n
             var = ssum([(x - m) * (x - m) for x in xs]) / (n - ddof)
-            return core.ssqrt(var)
+            return _sroot(var)
         return self._reduce(f, axis, keepdims)
 
     def round(self, decimals=0, out=None):
